@@ -216,8 +216,10 @@ def doc_cases():
         "posmark-int": {"type": "POSITION_MARK", "value": {"name": "Name of the mark", "x": 10, "y": 20}},
         "posmark-str": {"type": "POSITION_MARK", "value": {"name": "m", "x": "10", "y": "10.5"}},
     }
+    params["posmark-mixed"] = {"type": "POSITION_MARK", "value": {"name": "mx", "x": "3.5", "y": "4"}}
+    params["posmark-mixed2"] = {"type": "POSITION_MARK", "value": {"name": "my", "x": 7, "y": "8.5"}}
     for pname, p in params.items():
-        yield ("doc", "param", pname), ({"routines": [{"type": "GENERIC", "ops": [op("some_op", [p]), end]}]}, ["some_op"])
+        yield ("doc", "param", pname), ({"routines": [{"type": "GENERIC", "ops": [op("some_op", [p]), op("two", [1, p]), end]}]}, ["some_op"])
     yield ("doc", "routine", "coroutine"), ({"routines": [{"type": "COROUTINE", "name": "CORO_A", "ops": [op("a"), end]},
                                                           {"type": "COROUTINE", "name": "CORO_B", "ops": [op("b"), end]}]}, ["coro CORO_A", "coro CORO_B"])
     yield ("doc", "routine", "one-coroutine"), ({"routines": [{"type": "COROUTINE", "name": "NAME", "ops": [op("a"), end]}]}, ["coro NAME"])
@@ -236,6 +238,13 @@ def doc_cases():
     yield ("doc", "bad", "bad-type"), ({"routines": [{"type": "MONSTER", "ops": []}]}, None)
     yield ("doc", "bad", "no-file"), ("NOFILE", None)
     yield ("doc", "bad", "not-json"), ("NOTJSON", None)
+
+
+PARAM_VALUES = {
+    "int": ("i", 5), "fixed": ("f", "1.5"), "constant": ("c", "LEVEL_X"), "string": ("s", "Hello World"),
+    "lang": ("l", (("english", "Hello"), ("german", "Hallo"))), "posmark-int": ("p", "Name of the mark", 0, 0, 10, 20),
+    "posmark-str": ("p", "m", 0, 2, 10, 10), "posmark-mixed": ("p", "mx", 2, 0, 3, 4), "posmark-mixed2": ("p", "my", 0, 2, 7, 8),
+}
 
 
 def run_doc_case(cid, case, real=False):
@@ -270,9 +279,16 @@ def run_doc_case(cid, case, real=False):
                     break
             if not viols:
                 try:
-                    impl.compile_es(out)
+                    comp = impl.compile_es(out)
                 except Exception as e:
+                    comp = None
                     viols.append({"kind": "decompiled-doc-does-not-compile", "detail": {"doc": doc, "stdout": out[:400], "error": str(e)[:200]}})
+                if comp is not None and cid[1] == "param":
+                    want = PARAM_VALUES[cid[2]]
+                    got = [lts.canon_param(o.params[i]) for o in comp.routine_ops[0] for i in ([0] if o.op_code.name == "some_op" else [1])
+                           if o.op_code.name in ("some_op", "two")]
+                    if got != [want, want]:
+                        viols.append({"kind": "documented-argument-misread", "detail": {"doc": doc, "got": got, "want": want, "stdout": out[:400]}})
     res = {"outcome": "violation" if viols else "ok", "nt": cid}
     if viols:
         res["viol"] = viols
@@ -359,7 +375,7 @@ def run(tier, seed):
              + ("TINY" if quick else "FULL") + " N=3): exit status 0 iff the API compiles it, stdout is JSON of the documented "
              "structure, every jump parameter equals the 1-based position of its target op (target known from the API's "
              "offsets), the decompile command accepts the output and its text equals the API round trip (or, if not, behaves "
-             "like the source wherever the API round trip does); decompile command on 22 documented JSON shapes (every routine "
+             "like the source wherever the API round trip does); decompile command on 24 documented JSON shapes (argument values compared after recompiling the decompiled text) (every routine "
              "type incl. coroutines, every argument type incl. integer position-mark coordinates, jump positions across "
              "routines) and 10 failing invocations (exit status != 0); in-process emulation via runpy with fresh module "
              "globals, a subset (every case of the JSON shapes, ~1 in 400 programs) also as real subprocesses; "
